@@ -1976,6 +1976,14 @@ func (t *Topic) anotherUserSub(sess *Session, asUid, target types.Uid, asChan bo
 		}
 
 		userData = perUserData{
+			// A participant of a P2P topic who has left is still cached (as deleted): keep the values
+			// which do not come from the subscription, the topic name by which the user knows the topic first of all.
+			public:    userData.public,
+			trusted:   userData.trusted,
+			lastSeen:  userData.lastSeen,
+			lastUA:    userData.lastUA,
+			topicName: userData.topicName,
+
 			modeGiven: sub.ModeGiven,
 			modeWant:  sub.ModeWant,
 			private:   nil,
